@@ -1,5 +1,6 @@
 import HydroVerif.Proto
 import HydroVerif.Model.C07
+import HydroVerif.Model.C07Kernel
 open HydroVerif HydroVerif.C07
 
 /-
@@ -8,7 +9,9 @@ requests (floats as 16 hex digits, rationals as p/q):
   getnxy ncols [cells]                          -> [col,row;...]   (raw helper, any sign; ncols=0 -> err:div0)
   nb nrows ncols [cells]                        -> ok:[9 ints] | err:badCell , separated by ';'
   c2c nrows ncols xll yll csz [cells]           -> [x,y;...]  (nan,nan for an invalid cell)
-  xy2c nrows ncols xll yll csz [x,y;...]        -> [cells]
+  xy2c nrows ncols xll yll csz [x,y;...]        -> [cells]   kernel as written (extent test on floored doubles, then casts)
+  xy2c_cast ...                                 -> [cells]   cast-first form `C07.coord2cell` (imported by C05/C13/C16)
+  quot nrows ncols xll yll csz [x,y;...]        -> [qx,qy;...] the two quotients the kernel floors
   xy2c_trunc ... (pinned variant, diagnostics)  -> [cells]
   xy2cQ nrows ncols xll yll csz [x,y;...]       -> [cells]   exact rationals
   c2cQ nrows ncols xll yll csz [cells]          -> [x,y;...] exact rationals (none for invalid)
@@ -41,7 +44,7 @@ def handle (toks : List String) : String :=
   | ["rowcol", nr, nc, cells] =>
     match nr.toInt?, nc.toInt?, parseIntList? cells with
     | some nr, some nc, some cs =>
-      fmtPairs (cs.map fun c => let rc := cell2rowcol nr nc c; (toString rc.1, toString rc.2))
+      fmtPairs ((gridCell2rowcol nr nc cs).map fun rc => (toString rc.1, toString rc.2))
     | _, _, _ => "bad-op"
   | ["getnxy", nc, cells] =>
     match nc.toInt?, parseIntList? cells with
@@ -60,14 +63,23 @@ def handle (toks : List String) : String :=
   | ["c2c", nr, nc, xll, yll, csz, cells] =>
     match geomF? nr nc xll yll csz, parseIntList? cells with
     | some g, some cs =>
-      fmtPairs (cs.map fun c =>
-        match cell2coord g c with
+      fmtPairs ((gridCell2coord g cs).map fun r =>
+        match r with
         | some (x, y) => (hexOfFloat x, hexOfFloat y)
         | none => ("nan", "nan"))
     | _, _ => "bad-op"
   | ["xy2c", nr, nc, xll, yll, csz, pts] =>
     match geomF? nr nc xll yll csz, pairs? floatTok? pts with
+    | some g, some ps => fmtIntList (gridCoord2cell g ps)
+    | _, _ => "bad-op"
+  | ["xy2c_cast", nr, nc, xll, yll, csz, pts] =>
+    match geomF? nr nc xll yll csz, pairs? floatTok? pts with
     | some g, some ps => fmtIntList (ps.map fun p => coord2cell g p.1 p.2)
+    | _, _ => "bad-op"
+  | ["quot", nr, nc, xll, yll, csz, pts] =>
+    match geomF? nr nc xll yll csz, pairs? floatTok? pts with
+    | some g, some ps =>
+      fmtPairs (ps.map fun p => let q := quotients g p.1 p.2; (hexOfFloat q.1, hexOfFloat q.2))
     | _, _ => "bad-op"
   | ["xy2c_trunc", nr, nc, xll, yll, csz, pts] =>
     match geomF? nr nc xll yll csz, pairs? floatTok? pts with
@@ -76,13 +88,13 @@ def handle (toks : List String) : String :=
   | ["xy2cQ", nr, nc, xll, yll, csz, pts] =>
     match geomQ? nr nc xll yll csz, pairs? ratTok? pts with
     | some g, some ps =>
-      if g.csz = 0 then "err:csz0" else fmtIntList (ps.map fun p => coord2cell g p.1 p.2)
+      if g.csz = 0 then "err:csz0" else fmtIntList (gridCoord2cell g ps)
     | _, _ => "bad-op"
   | ["c2cQ", nr, nc, xll, yll, csz, cells] =>
     match geomQ? nr nc xll yll csz, parseIntList? cells with
     | some g, some cs =>
-      fmtPairs (cs.map fun c =>
-        match cell2coord g c with
+      fmtPairs ((gridCell2coord g cs).map fun r =>
+        match r with
         | some (x, y) => (fmtRat x, fmtRat y)
         | none => ("none", "none"))
     | _, _ => "bad-op"
